@@ -485,7 +485,7 @@ def main(argv=None):
     for k in known:
         print("KNOWN-FINDING: property=%s %s [%s; matched %d generated case(s) in this run]"
               % (prop_id, k["what"], k["id"], known_hits.get(k["id"], 0)))
-    rep_dir = os.path.join(HERE, "replays", prop_id)
+    rep_dir = os.path.join(os.environ.get("VERIF_REPLAY_DIR", os.path.join(HERE, "replays")), prop_id)
     if os.path.isdir(rep_dir) and not a.only:
         for fn in os.listdir(rep_dir):     # replays of earlier runs are stale
             if fn.endswith(".json"):
